@@ -363,7 +363,13 @@ fn pre_str<F: Field>() -> String {
 }
 fn legendre_str<F: Field>(x: &F) -> String {
     let l = x.legendre();
-    if l.is_zero() { "0".into() } else if l.is_qr() { "1".into() } else { "-1".into() }
+    // the documented numeric value of the symbol (`LegendreSymbol as i8`) and the three predicates must agree
+    let pred: i8 = if l.is_zero() { 0 } else if l.is_qr() { 1 } else { -1 };
+    let qnr = l.is_qnr();
+    let num = l as i8;
+    if qnr != (pred == -1) { return format!("inconsistent-predicates:{}", num); }
+    if num != pred { return format!("discriminant:{}:predicates:{}", num, pred); }
+    format!("{}", num)
 }
 
 // ---------------------------------------------------------------------------------------------
